@@ -170,7 +170,8 @@ class World(object):
             return _digest(m)
         if k == 'decode_info':
             raw = bytes.fromhex(msgs[op['m']]['hex'])
-            m = self.clients[op['c']]['dec'].process(raw, info_only=True)
+            m = self.clients[op['c']]['dec'].process(raw, info_only=True,
+                                                     ignore_value_expectation=op.get('ive', False))
             return _digest(m, False)
         if k == 'decode_bad':
             raw = bufrgen.apply_fault(bytes.fromhex(msgs[op['m']]['hex']), op['fault'])
@@ -542,6 +543,7 @@ def gen_plan(family, seed, msgs, tier='quick'):
     ops = []
     handles = []    # (op index, msg index, nsub, wire)
     p_fail = rng.choice([0.0, 0.05, 0.15])
+    p_ive = rng.choice([0.0, 0.05, 0.3])       # lenient decodes (ignore_value_expectation)
     save_bias = 5 if c08 else 0
     weights = [('cli', 5), ('decode', 30), ('decode_info', 4), ('decode_bad', 100 * p_fail / 2), ('render', 14), ('query', 8),
                ('mdquery', 3), ('script', 3), ('wire', 3), ('encode', 10), ('encode_bad', 100 * p_fail / 4),
@@ -584,12 +586,12 @@ def gen_plan(family, seed, msgs, tier='quick'):
         if k in ('render', 'query', 'mdquery', 'script', 'wire', 'subset_encode') and not handles:
             k = 'decode'
         if k == 'decode':
-            op = {'op': 'decode', 'c': c, 'm': mi, 'wire': rng.random() < 0.85, 'ive': rng.random() < 0.05}
+            op = {'op': 'decode', 'c': c, 'm': mi, 'wire': rng.random() < 0.85, 'ive': rng.random() < p_ive}
             handles.append((len(ops), mi, chosen[mi]['nsub'], op['wire']))
         elif k == 'cli':
             op = {'op': 'cli', 'm': mi, 'argv': gen_cli_argv(rng, chosen[mi])}
         elif k == 'decode_info':
-            op = {'op': 'decode_info', 'c': c, 'm': mi}
+            op = {'op': 'decode_info', 'c': c, 'm': mi, 'ive': rng.random() < p_ive}
         elif k == 'decode_bad':
             raw = bytes.fromhex(chosen[mi]['hex'])
             if rng.random() < 0.4:
